@@ -33,7 +33,7 @@ def setOwn (st : State) (c : Cls) (h : HookObj) : State :=
 /-- state after all the lazy creations of one evaluation on an instance of class `c` -/
 def touchAll (st : State) (c : Cls) : State :=
   let st1 := touch st c
-  (walkAll st1 (st1.mro c) tiers6).1
+  (walkAll st1 (st1.mro c) implTiers).1
 
 /-- classes on which an evaluation created instances -/
 def instsOf : List Ev → List Cls
